@@ -969,6 +969,12 @@ ADDENDA = {
            "a call of a user function of the operator or a new .subscribe( stands a re-check `if <disposable the returned subscription "
            "owns>.is_disposed` - a subscriber that unsubscribes inside on_next has nothing more done on its behalf; replayed natively by "
            "ownrun.py (the subscriber disposes inside its k-th on_next, every lambda of the shape logs its calls).",
+    "C37": " repeat_value_ (srcwire.py): the result is return_value(value) piped through exactly ops.repeat(n'), n' = None for None / -1, built "
+           "from the two arguments alone - so every (re-)subscription sees v n times by the contracts of return_value and of the concat engine.",
+    "C38": " hot() with an ABSOLUTE due time: the shift handed to parse is the timedelta `duetime - scheduler.now` itself (opaque values of the "
+           "marble world; native: one day + 200.5 s).",
+    "C42": " Scenario 'another CatchScheduler (another handler) wrapped the same action before'; frame unit instance-state: no method "
+           "writes a mutable container held in a class attribute.",
     "C25": " The action of a Disposable is user code: the monitor harness also runs the path on which it raises - the exception may leave "
            "dispose(), every critical section on the way out still keeps the rely (is_disposed never goes back to False) and the claimed "
            "token stays spent (no second run).",
